@@ -239,6 +239,15 @@ pub fn run(ctx: &Arc<Ctx>) {
             }
         }
     }
+    // pre-searched messages for (Annex d, Annex k) whose e + x1 falls in [n, 2^256) (r < 2^224: the rarely taken
+    // "no carry but >= n" reduction) or whose s < 2^224 — the same vectors C04 uses for the +n aliases
+    if let Ok(txt) = std::fs::read_to_string(format!("{}/corpus/sm2_small_rs.json", VERIF_ROOT)) {
+        for e in serde_json::from_str::<Value>(&txt).ok().and_then(|v| v.as_array().cloned()).unwrap_or_default() {
+            let m = e["msg"].as_str().unwrap_or("").to_string();
+            let kind = e["kind"].as_str().unwrap_or("small").to_string();
+            cases.push(Case::Sign { d: ANNEX_D.into(), id: None, msg_len: m.len() / 2, msg_class: format!("hex:{}", m), k: ANNEX_K.into(), tag: format!("pre-searched/{}", kind) });
+        }
+    }
     for len in [8191usize, 8192, 8193, 20000] {
         cases.push(Case::IdTooLong { len });
     }
